@@ -24,7 +24,7 @@ RTOL = 1e-8          # (rel) sub-claims through SVD / eig
 
 INVS = {
     "proj": ["ProjHermitian", "ProjIdempotent", "ProjFixesA", "ProjComplementary", "ReflectTwice", "ProjRank", "ProjSplits"],
-    "chord": ["ChordFormsAgree", "ChordSymmetric", "ChordZeroOnEqual", "ChordBasisInvariant", "ChordUnitaryInvariant", "ChordRange"],
+    "chord": ["ChordFormsAgree", "ChordSymmetric", "ChordZeroOnEqual", "ChordBasisInvariant", "ChordUnitaryInvariant", "ChordHouseholderIsUnitary", "ChordAngles", "ChordRange"],
     "smw": ["SmwIsInverse"],
     "conv": ["ConvInverse", "ConvOffset"],
     "ebn0": ["EbLaw"],
@@ -204,7 +204,7 @@ def ev_chord(c, o):
           ("calc_chordal_distance_from_principal_angles",
            lambda X, Y: mt.calc_chordal_distance_from_principal_angles(mt.calc_principal_angles(X, Y)))]
     real = is_real(c["A"]) and is_real(c["B"]) and is_real(c["T"])
-    A, B, AT, UA, UB = (mat(c[k]) for k in ("A", "B", "AT", "UA", "UB"))
+    A, B, AT, UA, UB, HA, HB = (mat(c[k]) for k in ("A", "B", "AT", "UA", "UB", "HA", "HB"))
     sets = [("complex", A, B, AT)]
     if real:
         sets.append(("float", A.real.copy(), B.real.copy(), AT.real.copy()))
@@ -216,10 +216,23 @@ def ev_chord(c, o):
                 if ok:
                     d = float(np.real(d))
                     o.check(d >= 0 and close(d * d, exp), f"[{dt}] {name}: {what}^2 = {d * d!r}, expected {exp!r}")
-        ok, d = _call(o, f"{name} d(UA,UB)", f, UA, UB)
+        for what, x, y in (("d(UA,UB) (common signed-permutation unitary)", UA, UB), ("d(HA,HB) (common Householder rotation)", HA, HB)):
+            ok, d = _call(o, f"{name} {what}", f, x, y)
+            if ok:
+                d = float(np.real(d))
+                o.check(d >= 0 and close(d * d, d2), f"{name}: {what}^2 = {d * d!r}, expected {d2!r}")
+    # the principal angles themselves: n angles in [0, pi/2], ascending, with the exact sum and product of cos^2
+    n = c["n"]
+    for dt, a, b, at in sets:
+        ok, ang = _call(o, "calc_principal_angles", mt.calc_principal_angles, a, b)
         if ok:
-            d = float(np.real(d))
-            o.check(d >= 0 and close(d * d, d2), f"{name}: d(UA,UB)^2 = {d * d!r} (common unitary), expected {d2!r}")
+            ang = np.asarray(ang, dtype=float)
+            good = ang.shape == (n,) and bool(np.all(ang >= 0)) and bool(np.all(ang <= np.pi / 2 + 1e-7)) and bool(np.all(np.diff(ang) >= -1e-7))
+            if o.check(good, f"[{dt}] calc_principal_angles: not {n} ascending angles in [0, pi/2]: {ang.tolist()}"):
+                c2 = np.cos(ang) ** 2
+                o.check(close(float(np.sum(c2)), rat(c["cos2sum"])) and close(float(np.prod(c2)), rat(c["cos2prod"])),
+                        f"[{dt}] calc_principal_angles: sum / product of cos^2 = {float(np.sum(c2))!r}, {float(np.prod(c2))!r}, "
+                        f"expected {rat(c['cos2sum'])!r}, {rat(c['cos2prod'])!r}")
 
 
 def ev_smw(c, o):
@@ -373,6 +386,9 @@ def ev_gmd(c, o):
         o.check(bool(np.all(np.abs(np.tril(R, -1)) <= RTOL * sc)), t + ": R not upper triangular (UpperTriangularR)")
         gm = float(np.exp(np.mean(np.log(S[:p]))))
         d = np.diag(R)[:p]
+        if c["sv"]:   # singular values known exactly (with repetitions)
+            gx = float(np.exp(np.mean(np.log(np.array(c["sv"], dtype=float)))))
+            o.check(bool(np.all(np.abs(d - gx) <= RTOL * max(1.0, gx))), t + f": diagonal of R != geometric mean {gx!r} of the exact singular values {c['sv']}")
         o.check(bool(np.all(np.abs(d - gm) <= RTOL * max(1.0, gm))), t + ": diagonal of R is not the geometric mean of the singular values")
         if c["gm2p"]:
             o.check(bool(np.all(np.abs(np.abs(d) ** (2 * p) - c["gm2p"][0]) <= 1e-7 * c["gm2p"][0])),
@@ -433,7 +449,8 @@ def eval_case(c):
 
 def case_key(c):
     k = c["kind"]
-    if k == "smw":
+    k = c.get("family", k)
+    if c["kind"] == "smw":
         return (k, c["id"], c["k"], len(c["A"]))
     shape = ""
     for f in ("A", "H", "C"):
@@ -499,7 +516,7 @@ def run(ctx):
     per_family = {}
     for j, r in zip(jobs, runs):
         ctx.account(r, MODULE, f"{j[0]} ids {j[4]}..{j[5]}")
-        em = [c for c in r.emitted if c.get("kind") not in (None, "none")]
+        em = [dict(c, family=j[0]) for c in r.emitted if c.get("kind") not in (None, "none")]
         if not em:
             raise tlc.TlcError(f"family {j[0]} ids {j[4]}..{j[5]} emitted no case")
         per_family[j[0]] = per_family.get(j[0], 0) + len(em)
@@ -525,10 +542,15 @@ def run(ctx):
             else:
                 ctx.violation(f"{c['kind']} case {c['id']}: {what}", case)
     ctx.notes["cases_per_family"] = per_family
+    from . import c20_trace
+    c20_trace.run(ctx)
     ctx.exhaustive = False      # projx families are complete enumerations; the seeded families are samples
 
 
 def replay(ctx, data):
+    if data["case"].get("kind") == "trace":
+        from . import c20_trace
+        return c20_trace.replay(ctx, data["case"])
     c = data["case"]["case"]
     n, bad = eval_case(c)
     ctx.ok(case_key(c), n - len(bad))
